@@ -5,14 +5,14 @@ From Coq Require Import List NArith Bool Arith Lia.
 Import ListNotations.
 Require Import V.Regex V.Parse V.ParseProofs V.Parse2 V.PathSpec V.Splice V.Setters V.Push V.SetPath V.SetAuth V.SetScheme
   V.Reference V.SetFragment V.C05Proofs V.C04Proofs V.Auth V.AuthProofs V.AuthMut V.AuthMutProofs V.AuthValues V.AuthMutProofs2
-  V.Iter V.PathQ V.PathMut V.PathMutProofs V.PushWf V.RefPath V.RefAuth V.NormProofs V.PopProofs V.SymProofs.
+  V.Iter V.PathQ V.PathMut V.PathMutProofs V.PushWf V.RefPath V.RefAuth V.NormProofs V.PopProofs V.SymProofs V.ResolveProofs3.
 Local Open Scope nat_scope.
 
 Definition auth_shape_of (s : str) : Prop := exists a, s = acompose a /\ wf_aparts_s a /\ aparts_clean a.
 Definition auth_shape (p : parts) : Prop := forall s, p_authority p = Some s -> auth_shape_of s.
 
 Inductive mop := MSet (o : sop) | MPush (seg : str) | MClear | MAuthEdits (ops : list aop)
-  | MPop | MNormalize | MSymPush (seg : str) | MSymAppend (segs : list str).
+  | MPop | MNormalize | MSymPush (seg : str) | MSymAppend (segs : list str) | MResolve (base : str).
 Definition marg_ok (m : mop) : Prop :=
   match m with
   | MSet o => arg_ok o /\ match o with OpAuthority (Some s) => auth_shape_of s | _ => True end
@@ -22,6 +22,7 @@ Definition marg_ok (m : mop) : Prop :=
   | MPop | MNormalize => True
   | MSymPush seg => seg_arg seg
   | MSymAppend segs => Forall seg_arg segs
+  | MResolve base => exists pb s, base = compose pb /\ wf_parts pb /\ p_scheme pb = Some s /\ auth_shape pb
   end.
 Definition mstep (buf : str) (m : mop) : option str :=
   match m with
@@ -33,6 +34,7 @@ Definition mstep (buf : str) (m : mop) : option str :=
   | MNormalize => ref_normalize buf
   | MSymPush seg => ref_sympush buf seg
   | MSymAppend segs => ref_symappend buf segs
+  | MResolve base => resolve buf base
   end.
 Fixpoint mrun (ms : list mop) (buf : str) : option str :=
   match ms with [] => Some buf | m :: r => bind (mstep buf m) (mrun r) end.
@@ -40,7 +42,7 @@ Fixpoint mrun (ms : list mop) (buf : str) : option str :=
 Lemma mstep_inv p m : wf_parts p -> auth_shape p -> marg_ok m ->
   exists p', mstep (compose p) m = Some (compose p') /\ wf_parts p' /\ auth_shape p'.
 Proof.
-  intros W S A. destruct m as [o|seg| |ops| | |seg|segs]; cbn [mstep marg_ok] in *.
+  intros W S A. destruct m as [o|seg| |ops| | |seg|segs|base]; cbn [mstep marg_ok] in *.
   - destruct A as [A1 A2]. destruct o as [v|v|v|v|v]; cbn [step arg_ok] in *.
     + eexists; split; [apply set_scheme_spec; auto | split; [apply set_scheme_wf; auto | exact S]].
     + eexists; split; [apply set_authority_spec; auto | split; [apply set_authority_wf; auto |]].
@@ -62,6 +64,8 @@ Proof.
   - destruct (ref_normalize_spec p W) as [E W']. eexists; split; [exact E | split; [exact W' | exact S]].
   - destruct (ref_sympush_spec p W seg A) as [E W']. eexists; split; [exact E | split; [exact W' | exact S]].
   - destruct (ref_symappend_spec p W segs A) as [E W']. eexists; split; [exact E | split; [exact W' | exact S]].
+  - destruct A as (pb & s & -> & Wb & Hbs & Sb). destruct (resolve_total pb p s Wb W Hbs) as (p' & E & W' & Ha).
+    exists p'. split; [exact E | split; [exact W'|]]. unfold auth_shape in *. destruct Ha as [Ha|Ha]; rewrite Ha; assumption.
 Qed.
 
 Theorem mrun_wf ms : forall p, wf_parts p -> auth_shape p -> Forall marg_ok ms ->
